@@ -306,10 +306,10 @@ def flow_cases(draw):  # noqa: C901, PLR0912, PLR0915
             p["remote"] = r
         elif mode in ("both", "remote"):
             p["remote"], p["cache"] = r, cache_of_remote[r]
-            if nc > 1 and draw(st.integers(0, 7)) == 0:
+            if nc > 1 and draw(st.integers(0, 4)) == 0:
                 p["cache"] = draw(st.integers(0, nc - 1))  # may pair this remote with a second cache
         elif mode == "cache":
-            if inh["remote"] is None or (nc > 1 and draw(st.integers(0, 3)) == 0):
+            if inh["remote"] is None or (nc > 1 and draw(st.integers(0, 2)) == 0):
                 p["cache"] = draw(st.integers(0, nc - 1))  # under an inherited remote: a second cache for it
             else:
                 p["cache"] = cache_of_remote[inh["remote"]]  # redundant re-statement of the inherited cache
